@@ -112,6 +112,9 @@ func TestC09(t *testing.T) {
 		// the sender may be staking: part of its vesting coins (delegated vesting > 0) or more than its
 		// vesting coins of the staking denomination (delegated free > 0; uatom stays locked)
 		senderDelegation := rapid.IntRange(0, 2).Draw(t, "senderDelegation")
+		if v.BondDenom() != Denom {
+			senderDelegation = 0 // (on a chain with another bond denomination the sender's coins cannot be staked)
+		}
 		if senderDelegation > 0 {
 			if res := v.Delegate(vsender, sdk.NewInt([]int64{0, 500_000, 995_000}[senderDelegation])); !res.OK() {
 				t.Fatalf("harness: delegation of the vesting sender failed: %v %v", res.Err, res.Panic)
